@@ -1,6 +1,7 @@
 import TsVerif.C13.Props
 import TsVerif.C13.TreeLevel
 import TsVerif.C13.Round11
+import TsVerif.C13.Round11b
 #print axioms TsVerif.C13.ranges_valid_iff
 #print axioms TsVerif.C13.set_ranges_accepts_iff
 #print axioms TsVerif.C13.set_ranges_reject_keeps
@@ -21,3 +22,5 @@ import TsVerif.C13.Round11
 #print axioms TsVerif.C13.lexStream_eq_rangedChars_partial
 #print axioms TsVerif.C13.advance_step
 #print axioms TsVerif.C13.findRange_skipL
+#print axioms TsVerif.C13.lexStream_eq_rangedChars
+#print axioms TsVerif.C13.port_stream_concat
